@@ -17,7 +17,7 @@ VERIF = os.path.dirname(HERE)
 CACHE = os.path.join(VERIF, '.cache')
 VERUS_FLAGS = ['--cfg', 'feature="stream"', '--cfg', 'feature="raw_decoder"', '--multiple-errors', '8',
                '--output-json', '--time-expanded', '--error-format=json', '--no-lifetime',
-               '--no-report-long-running']
+               '--no-report-long-running', '--triggers-mode', 'silent']
 
 SAFETY_MSG = re.compile(r'arithmetic underflow/overflow|division by zero|bit shift|termination|decreases|'
                         r'index out of bounds|unreachable|loop must have a decreases')
